@@ -1,30 +1,39 @@
 (* C11 — executable model of the polynomial rational reconstruction of
-   src/library/poly1/givpoly1ratrecon.inl (Poly1Dom<Domain,Dense>::ratrecon / ratreconcheck), written after
-   the code.  No proofs here.
+   src/library/poly1/givpoly1ratrecon.inl (Poly1Dom<Domain,Dense>::ratrecon / ratreconcheck / the dispatcher),
+   written after the code.  No proofs here.
 
    The control structure (early exits, the two-step do-while loop, the returned flag) is written once,
-   generically over the operations it calls:
+   generically over the Poly1Dom operations it calls:
         degree(d,P)           pdeg      (Degree: -1 for the zero polynomial)
-        div(Q,A,B)            pdiv      the quotient
-        maxpyin(R,Q,B)        pmaxpy    R - Q*B          (divmodin(Q,R,B) = div(Q,R,B); maxpyin(R,Q,B))
-   so that PolyProofs.v can prove soundness for EVERY choice of these operations satisfying the ring laws, and
-   the concrete instance below (dense polynomials over Z/p as coefficient lists, low degree first) is what is
-   extracted and run against the C++ code. *)
+        assign(R,P)           passign
+        divmodin(Q,R,B)       pdivmod   (quotient, new R)
+        maxpyin(R,Q,B)        pmaxpy    R - Q*B
+        degree(gcd(G,N,D))    pgcddeg
+        isOne(leadcoef(D))    pleadone
+        divin(X, leadcoef D)  pdivlead
+   PolyProofs.v proves soundness for EVERY choice of these operations satisfying the ring / degree laws up to an
+   equivalence.  The concrete instance `LOps` below takes each operation from the model of Poly1Dom in coq/C08
+   (C08.Model: degree, assign, divmodin = Newton-inverse division + Karatsuba product, maxpyin, gcd, leadcoef,
+   div_s, over a coefficient domain `Dom T`): polynomials are the coefficient vectors (lists, index = degree).
+   PolyLists.v proves the laws for that instance from C08's theorems, for every field; the instance over
+   C08.Model.ZpDom p is what is extracted and run against the C++ code. *)
 From Coq Require Import ZArith Bool List.
+From C08 Require Model.
 Import ListNotations.
 Local Open Scope Z_scope.
 
 Record pops (T : Type) : Type := mk_pops {
   pzero : T; pone : T;
+  passign : T -> T;
   pdeg : T -> Z;
-  pdiv : T -> T -> T;
+  pdivmod : T -> T -> T * T;
   pmaxpy : T -> T -> T -> T;
   pgcddeg : T -> T -> Z;          (* degree(degG, gcd(G,N,D)) *)
   pleadone : T -> bool;           (* _domain.isOne(leadcoef(D)) *)
   pdivlead : T -> T -> T          (* pdivlead D X = X divided by leadcoef(D)   (divin(X, r)) *)
 }.
-Arguments pzero {T}. Arguments pone {T}. Arguments pdeg {T}. Arguments pdiv {T}. Arguments pmaxpy {T}.
-Arguments pgcddeg {T}. Arguments pleadone {T}. Arguments pdivlead {T}.
+Arguments pzero {T}. Arguments pone {T}. Arguments passign {T}. Arguments pdeg {T}. Arguments pdivmod {T}.
+Arguments pmaxpy {T}. Arguments pgcddeg {T}. Arguments pleadone {T}. Arguments pdivlead {T}.
 
 Section Generic.
   Context {T : Type} (Ops : pops T).
@@ -32,39 +41,37 @@ Section Generic.
   (* Degree(a) clamps negative values to DEGPOLYZERO = -1 *)
   Definition clampdeg (d : Z) : Z := if d <? 0 then -1 else d.
 
-  (* lines 45-63; state N, U, D0, D.  Result: (degN <= dk, N, D) as left by the code; None = fuel exhausted *)
+  (* lines 49-67; state N, U, D0, D.  Result: (degN <= dk, N, D) as left by the code; None = fuel exhausted *)
   Fixpoint ploop (fuel : nat) (N U D0 D : T) (dk : Z) : option (bool * T * T) :=
     match fuel with
     | O => None
     | S n =>
-      let Q := pdiv Ops N U in
-      let N1 := pmaxpy Ops N Q U in           (* divmodin(Q,N,U) *)
+      let '(Q, N1) := pdivmod Ops N U in      (* divmodin(Q,N,U) *)
       let D01 := pmaxpy Ops D0 Q D in         (* maxpyin(D0,Q,D) *)
       let degN := pdeg Ops N1 in
-      if (degN <=? dk) || (degN <? 0) then Some (degN <=? dk, N1, D01)   (* assign(D,D0); break *)
+      if (degN <=? dk) || (degN <? 0) then Some (degN <=? dk, N1, passign Ops D01)   (* assign(D,D0); break *)
       else
-        let Q2 := pdiv Ops U N1 in
-        let U1 := pmaxpy Ops U Q2 N1 in       (* divmodin(Q,U,N) *)
+        let '(Q2, U1) := pdivmod Ops U N1 in  (* divmodin(Q,U,N) *)
         let D1 := pmaxpy Ops D Q2 D01 in      (* maxpyin(D,Q,D0) *)
         let degU := pdeg Ops U1 in
-        if degU <=? dk then Some (true, U1, D1)                           (* assign(N,U); break *)
+        if degU <=? dk then Some (true, passign Ops U1, D1)                          (* assign(N,U); break *)
         else if degU >=? 0 then ploop n N1 U1 D01 D1 dk
         else Some (false, N1, D1)
     end.
 
-  (* lines 18-87 *)
+  (* lines 24-89 (the alias guard of lines 20-23 copies P and M: same values) *)
   Definition pratrecon_fuel (fuel : nat) (P M : T) (dk0 : Z) : option (bool * T * T) :=
     let dk := clampdeg dk0 in
     let degU := pdeg Ops P in
     let degV := pdeg Ops M in
-    if (degU <? dk) || (degV =? 0) then Some (true, P, pone Ops)
-    else if (degV <? 0) || (degU =? 0) then Some (false, pone Ops, pone Ops)
-    else ploop fuel M P (pzero Ops) (pone Ops) dk.
+    if (degU <? dk) || (degV =? 0) then Some (true, passign Ops P, passign Ops (pone Ops))
+    else if (degV <? 0) || (degU =? 0) then Some (false, passign Ops (pone Ops), passign Ops (pone Ops))
+    else ploop fuel (passign Ops M) (passign Ops P) (passign Ops (pzero Ops)) (passign Ops (pone Ops)) dk.
 
   Definition pfuel (P M : T) : nat := Z.to_nat (pdeg Ops P + pdeg Ops M + 4).
   Definition pratrecon (P M : T) (dk : Z) : option (bool * T * T) := pratrecon_fuel (pfuel P M) P M dk.
 
-  (* lines 90-107: ratreconcheck *)
+  (* lines 94-111: ratreconcheck *)
   Definition pratreconcheck_g (P M : T) (dk : Z) : option (bool * T * T) :=
     match pratrecon P M dk with
     | None => None
@@ -74,88 +81,40 @@ Section Generic.
       else Some (pass, pdivlead Ops D N, pdivlead Ops D D)      (* divin(D,r); divin(N,r) with r = leadcoef(D) *)
     end.
 
-  (* lines 109-115 *)
+  (* lines 113-119 *)
   Definition pratrecon6_g (P M : T) (dk : Z) (forcereduce : bool) : option (bool * T * T) :=
     if forcereduce then pratreconcheck_g P M dk else pratrecon P M dk.
 End Generic.
 
-(* ------------------------------------------------------------------ dense polynomials over Z/p *)
-Section Zp.
-  Variable p : Z.
+(* ------------------------------------------------------------------ the Poly1Dom operations as modelled in coq/C08 *)
+Section Lists.
+  Context {T : Type} (D : Model.Dom T).
+  Variables (kthr sthr : nat).      (* KARA_THRESHOLD, SQR_THRESHOLD of givpoly1kara.inl (read from the source by the check) *)
 
-  Definition cadd (a b : Z) := (a + b) mod p.
-  Definition csub (a b : Z) := (a - b) mod p.
-  Definition cmul (a b : Z) := (a * b) mod p.
-  (* inverse by the extended Euclidean algorithm: invariant r0 == t0 a, r1 == t1 a (mod p) *)
-  Fixpoint cinv_loop (fuel : nat) (r0 t0 r1 t1 : Z) : Z :=
-    match fuel with
-    | O => t0 mod p
-    | S n => if r1 =? 0 then t0 mod p else let q := r0 / r1 in cinv_loop n r1 t1 (r0 - q * r1) (t0 - q * t1)
+  Definition LOps : pops (list T) :=
+    mk_pops (list T)
+      []                                              (* Poly1Dom::zero *)
+      (Model.const D (Model.d1 D))                    (* Poly1Dom::one = (Degree 0, _domain.one) *)
+      (Model.assign D)
+      (Model.degree D)
+      (Model.divmodin D kthr sthr)
+      (Model.maxpyin D kthr)
+      (fun N Dn => Model.degree D (Model.gcd D kthr sthr N Dn))
+      (fun Dn => Model.dis0 D (Model.dsub D (Model.leadcoef D Dn) (Model.d1 D)))
+      (fun Dn X => Model.div_s D X (Model.leadcoef D Dn)).
+
+  (* the harness prints N and D after setdegree *)
+  Definition lout (r : option (bool * list T * list T)) : option (bool * list T * list T) :=
+    match r with
+    | None => None
+    | Some (ok, N, Dn) => Some (ok, Model.setdegree D N, Model.setdegree D Dn)
     end.
-  Definition cinv (a : Z) : Z := cinv_loop (Z.to_nat (2 * Z.log2 p + 4)) p 0 (a mod p) 1.
+  Definition lratrecon5 (P M : list T) (dk : Z) := lout (pratrecon LOps P M dk).
+  Definition lratreconcheck (P M : list T) (dk : Z) := lout (pratreconcheck_g LOps P M dk).
+  Definition lratrecon6 (P M : list T) (dk : Z) (forcereduce : bool) := lout (pratrecon6_g LOps P M dk forcereduce).
+End Lists.
 
-  Definition poly := list Z.
-
-  (* setdegree: strip leading (high-degree) zeros; lists are low degree first *)
-  Fixpoint norm (l : poly) : poly :=
-    match l with
-    | [] => []
-    | a :: t => match norm t with
-                | [] => if a =? 0 then [] else [a]
-                | t' => a :: t'
-                end
-    end.
-  Definition deg (l : poly) : Z := Z.of_nat (length (norm l)) - 1.
-  Definition lead (l : poly) : Z := last (norm l) 0.
-
-  Fixpoint zipw (f : Z -> Z -> Z) (a b : poly) : poly :=
-    match a, b with
-    | [], _ => map (f 0) b
-    | _, [] => map (fun x => f x 0) a
-    | x :: a', y :: b' => f x y :: zipw f a' b'
-    end.
-  Definition padd (a b : poly) : poly := norm (zipw cadd a b).
-  Definition psub (a b : poly) : poly := norm (zipw csub a b).
-  Definition pscale (c : Z) (a : poly) : poly := norm (map (cmul c) a).
-  Definition pshift (n : nat) (a : poly) : poly := match a with [] => [] | _ => repeat 0 n ++ a end.
-  Fixpoint pmul (a b : poly) : poly :=
-    match a with
-    | [] => []
-    | x :: a' => padd (pscale x b) (pshift 1 (pmul a' b))
-    end.
-
-  (* quotient of the Euclidean division by long division (B <> 0) *)
-  Fixpoint pdiv_loop (fuel : nat) (A B Q : poly) : poly :=
-    match fuel with
-    | O => Q
-    | S n =>
-      if deg A <? deg B then Q
-      else
-        let d := Z.to_nat (deg A - deg B) in
-        let c := cmul (lead A) (cinv (lead B)) in
-        pdiv_loop n (psub A (pshift d (pscale c B))) B (padd Q (pshift d [c]))
-    end.
-  Definition pquo (A B : poly) : poly :=
-    let A := norm A in let B := norm B in
-    if deg B <? 0 then [] else pdiv_loop (length A + 1) A B [].
-  Definition pmxpy (R Q B : poly) : poly := psub R (pmul Q B).
-  Definition prem (A B : poly) : poly := pmxpy (norm A) (pquo A B) (norm B).
-
-  (* degree of gcd(A,B) as Poly1Dom::gcd followed by degree() gives it (Euclid; gcd(0,B) = B) *)
-  Fixpoint gcd_loop (fuel : nat) (A B : poly) : poly :=
-    match fuel with
-    | O => A
-    | S n => if deg B <? 0 then A else gcd_loop n B (prem A B)
-    end.
-  Definition pgcd_deg (A B : poly) : Z :=
-    let A := norm A in let B := norm B in
-    deg (gcd_loop (length A + length B + 2) A B).
-
-  Definition ZpOps : pops poly :=
-    mk_pops poly [] [1 mod p] deg pquo pmxpy pgcd_deg (fun D => lead D =? 1) (fun D X => pscale (cinv (lead D)) X).
-
-  Definition pratreconcheck (P M : poly) (dk : Z) : option (bool * poly * poly) :=
-    pratreconcheck_g ZpOps (norm P) (norm M) dk.
-  Definition pratrecon6 (P M : poly) (dk : Z) (forcereduce : bool) : option (bool * poly * poly) :=
-    pratrecon6_g ZpOps (norm P) (norm M) dk forcereduce.
-End Zp.
+(* Z-level wrappers extracted for the correspondence run: coefficients in Z/p (C08.Model.ZpDom) *)
+Definition zp_ratrecon5 (p : Z) (kthr sthr : nat) := lratrecon5 (Model.ZpDom p) kthr sthr.
+Definition zp_ratreconcheck (p : Z) (kthr sthr : nat) := lratreconcheck (Model.ZpDom p) kthr sthr.
+Definition zp_ratrecon6 (p : Z) (kthr sthr : nat) := lratrecon6 (Model.ZpDom p) kthr sthr.
